@@ -720,6 +720,14 @@ func (m *multi) runC03() {
 		}
 	}
 	m.observe()
+	if c.F(4, "reconnect-before-failure") == 3 {
+		// the connection to the master was lost and re-established some time before the failure:
+		// the reconciliation answers (no executor id in them) must not change how it is handled
+		c.Count("fault.c03.reconnect_before_failure")
+		m.s.mesos.DropSubscription()
+		simrt.Sleep(8 * time.Second)
+		m.sc.Notes = append(m.sc.Notes, "reconnection before the failure")
+	}
 	// victim and failure kind
 	vt := wf.Tasks[c.W(len(wf.Tasks), "victim")]
 	kinds := []string{"task-failed", "task-lost", "task-killed", "executor-lost", "agent-lost", "internal-error", "agent-lost-failure-event-only"} // a process exiting with status 0 (TASK_FINISHED) is not among the failures the statement lists
